@@ -346,12 +346,24 @@ func registerSigModel(ex *Explorer) {
 		src := b.val.(*StructVal)
 		cur := in.load(ec).(*StructVal)
 		nv := &StructVal{F: append([]Value{}, cur.F...)}
-		// ChainID and Hash: kept if set and equal, else populated (as the real decoder does)
+		// ChainID and Hash: verified if already set on the receiver, else populated (as the real
+		// decoder does: a receiver reused for another entry fails with "invalid hash")
 		for _, k := range []int{0, 1} {
 			cc, _ := cur.F[k].(*Cell)
+			sc, _ := src.F[k].(*Cell)
 			if cc == nil {
-				if sc, _ := src.F[k].(*Cell); sc != nil {
+				if sc != nil {
 					nv.F[k] = in.newCell(sc.T, in.load(sc))
+				}
+				continue
+			}
+			if sc != nil {
+				eq := in.deepEqual(in.load(cc), in.load(sc), sc.T)
+				if !in.Branch(eq) {
+					if k == 0 {
+						return in.newError("invalid ChainID")
+					}
+					return in.newError("invalid hash")
 				}
 			}
 		}
